@@ -1,5 +1,5 @@
 #!/bin/sh
-# tools/benignmatrix.sh [all]  -> runs quick checks against the behaviour-preserving patches under benign/ (each in a private
+# tools/benignmatrix.sh [all]  (SKIP_EXISTING=1: keep outputs already under /tmp/mutrun/benign)  -> runs quick checks against the behaviour-preserving patches under benign/ (each in a private
 # scratch worktree of /repo's HEAD, VERIF_REPO) and regenerates benign/RESULTS.md.
 #   benign/all-*   : against all 20 checks
 #   benign/<ID>-bN : against its own property's check, and - with "all" - against every check whose anchored files the
@@ -25,5 +25,5 @@ for d in sorted(glob.glob("benign/*")):
         for pid in sorted(anch):
             if pid != own and anch[pid] & files: print(name, pid)
 PY
-cat $OUT/pairs.txt | xargs -P 3 -L 1 sh -c 'MUTRUN=/tmp/mutrun/tree-bn-$0-$1 tools/trymutant.sh benign/$0/patch.diff $1 > '$OUT'/$0--$1.txt 2>&1; echo "$0 $1 rc=$?"'
+cat $OUT/pairs.txt | xargs -P 3 -L 1 sh -c '[ -n "$SKIP_EXISTING" ] && [ -f '$OUT'/$0--$1.txt ] && exit 0; MUTRUN=/tmp/mutrun/tree-bn-$0-$1 tools/trymutant.sh benign/$0/patch.diff $1 > '$OUT'/$0--$1.txt 2>&1; echo "$0 $1 rc=$?"'
 python3 tools/benignresults.py $OUT
